@@ -3,7 +3,7 @@
 property (and of the properties listed in EXTRA), remove the worktree, and record which checks reported a VIOLATION in meta.json"""
 import json, os, subprocess, sys
 V = os.path.dirname(os.path.dirname(os.path.abspath(__file__)))
-EXTRA = {'C08-14': ['C14'], 'C03-14': ['C02'], 'C15-13': ['C08', 'C13'], 'C01-10': ['C02'], 'C12-10': ['C09'], 'C18-10': ['C04'], 'C11-09': ['C03', 'C09'], 'C05-07': ['C18'], 'C10-08': ['C18'], 'C12-05': ['C05'], 'C10-01': ['C18'], 'C05-01': ['C18'], 'C04-01': ['C18'], 'C02-01': ['C20', 'C01'], 'C12-01': ['C04', 'C05'], 'C17-01': ['C12']}
+EXTRA = {'C12-15': ['C09'], 'C08-14': ['C14'], 'C03-14': ['C02'], 'C15-13': ['C08', 'C13'], 'C01-10': ['C02'], 'C12-10': ['C09'], 'C18-10': ['C04'], 'C11-09': ['C03', 'C09'], 'C05-07': ['C18'], 'C10-08': ['C18'], 'C12-05': ['C05'], 'C10-01': ['C18'], 'C05-01': ['C18'], 'C04-01': ['C18'], 'C02-01': ['C20', 'C01'], 'C12-01': ['C04', 'C05'], 'C17-01': ['C12']}
 claimed = {c['property_id'] for c in json.load(open(os.path.join(V, 'MANIFEST.json')))['checks']}
 ids = sys.argv[1:] or sorted(os.listdir(os.path.join(V, 'seeded')))
 for sid in ids:
